@@ -75,6 +75,7 @@ type world struct {
 	events   []streamEv
 	fateOf   map[string]string
 	reserved int
+	wrecs    *[]gocql.VerifWriteRec
 }
 
 type observer struct{ w *world }
@@ -247,6 +248,9 @@ func (c *cfgT) body(prop string) {
 		if got := len(live.ReserveStreams(w.reserved)); got != w.reserved {
 			vs.Failf("harness:setup", "reserved %d of %d ids", got, w.reserved)
 		}
+	}
+	if prop == "C07" {
+		w.wrecs = live.RecordWrites()
 	}
 	vs.Quiet(false)
 	w.hsWrites = len(w.wlog)
@@ -550,6 +554,26 @@ func (w *world) checkC07(got []result) {
 		// a caller that got past the write (response, server error, timeout waiting for the response) was told its write succeeded
 		if (cls == "ok" || cls == "server-error" || cls == "timeout") && !whole {
 			vs.Failf("c07:success-without-whole-frame", "request %q ended with %q, i.e. its write was reported successful, but its whole frame is not in the byte stream", r.label, cls)
+		}
+	}
+	// what each request was told about its write (recorded at the contextWriter seam) against the wire
+	if w.wrecs != nil {
+		for _, wr := range *w.wrecs {
+			label := ""
+			if i := bytes.Index(wr.Data, []byte("QUERYX '")); i >= 0 {
+				label = labelOf(string(wr.Data[i:]))
+			}
+			switch {
+			case wr.Err == nil:
+				if !bytes.Contains(stream, wr.Data) {
+					vs.Failf("c07:write-reported-successful-but-frame-not-on-wire", "the write of %q (%d bytes) returned success but its whole frame is not in the byte stream; client writes: %s", label, len(wr.Data), w.wlogSummary())
+				}
+			case wr.N == 0 && wr.Ctx:
+				// "a request whose context ended before writing began leaves no bytes"
+				if label != "" && bytes.Contains(stream, []byte("'"+label+"'")) {
+					vs.Failf("c07:bytes-on-wire-after-write-reported-not-started", "the write of %q returned (0, %v), i.e. nothing was written, yet its frame is in the byte stream; client writes: %s", label, wr.Err, w.wlogSummary())
+				}
+			}
 		}
 	}
 	// a request cancelled before writing began leaves no bytes: a frame never reported as started to write
